@@ -14,6 +14,7 @@ func init() {
 }
 
 func c15(r *core.Run) {
+	c15UploadPinEveryChunk(r)
 	w := r.W
 	const S = "pkg/pinning.Service"
 	cp := w.Func("pkg/pinning", "(*Service).CreatePin")
